@@ -227,8 +227,13 @@ def boson_search(chk, n_cases):
         try:
             t = oqupy.Tempo(oqupy.System(H), bath, par, rho0, 0.0, unique=unique)
             st_t = np.array(quiet(t.compute, n * dt, progress_type="silent").states)
-            pt = quiet(oqupy.pt_tempo_compute, bath, 0.0, n * dt, parameters=par, unique=unique, progress_type="silent")
+            # the process tensor in memory or written directly to a file (every third case; it == 1: rotated complex basis, forced)
+            pt = quiet(oqupy.pt_tempo_compute, bath, 0.0, n * dt, parameters=par, unique=unique, process_tensor_file=True if it % 3 == 1 else None,
+                       progress_type="silent")
+            info["process_tensor"] = "file-backed" if it % 3 == 1 else "memory"
             st_p = np.array(quiet(oqupy.compute_dynamics, oqupy.System(H), initial_state=rho0, process_tensor=pt, progress_type="silent").states)
+            if it % 3 == 1:
+                pt.remove()
         except Exception as ex:
             chk.fail("boson-raises", f"Tempo/PtTempo raise {ex!r}", info)
             continue
